@@ -1,5 +1,6 @@
 import DeapModel.Core.Hypervolume
 import DeapModel.Core.HvSweep
+import DeapModel.Core.HvC
 import Driver.Proto
 /-!
 Protocol handler for C15 (hypervolume).
@@ -10,6 +11,11 @@ Protocol handler for C15 (hypervolume).
   sweep <ref> <pts>              → the transcribed pyhv algorithm (`HvSweep.computeSt`): value, number of
                                    hvRecursive calls per dimIndex, final node order of every dimension list,
                                    ignore flags, area and volume caches per node, bounds  (needs ≥ 1 dimension, ≥ 1 point)
+  chv   <ref> <pts>              → the transcribed C routine `_hv.c` (`HvC.fpliHv`): first token `ok` iff its value equals
+                                   `hvSlice ref pts` (else `differs-from-hvSlice:<hvSlice>`), then the value  (≥ 1 dimension, ≥ 1 point)
+  chvst <ref> <pts>              → `HvC.fpliHvSt`: value, `hv_recursive` calls per dim, node order of every dimension list,
+                                   ignore flags, area, vol, bound, domr  (used to validate the transcription against an
+                                   instrumented build of `_hv.c`; the check itself compares values only)
   hvtol <ref> <pts> <value> <tol>    → `within` iff |value − hvSlice ref pts| ≤ tol · hvSlice ref pts (float regime:
                                        the doubles travel as their exact rational values), else `off:<exact>`
   lootol <ref> <pts> <idx> <tol>     → `within` iff idx is an index whose exact leave-one-out loss exceeds the least
@@ -49,6 +55,24 @@ def showSweep (n dims : Nat) (r : Option (Rat × HvSweep.St)) : String :=
       ++ showList2 showRat (ids.map (fun a => (List.range dims).map (HvSweep.vl S a))) ++ " "
       ++ showList (fun b => match b with | none => "-inf" | some x => showRat x) S.bounds
 
+/-- walk `next[i]` of the C model from the list head (fuel `n + 1`) -/
+def walkC (S : HvC.St) (i : Nat) : Nat → Nat → List Nat
+  | 0, _ => []
+  | f + 1, a => let b := HvC.nx S i a; if b = 0 then [] else b :: walkC S i f b
+
+def showC (n dims : Nat) (r : Option (Rat × HvC.St)) : String :=
+  match r with
+  | none => "fuel-exhausted"
+  | some (v, S) =>
+    let ids := (List.range n).map (· + 1)
+    showRat v ++ " " ++ showList toString S.calls ++ " "
+      ++ showList2 toString ((List.range dims).map (fun i => walkC S i (n + 1) 0)) ++ " "
+      ++ showList toString (ids.map (HvC.ign S)) ++ " "
+      ++ showList2 showRat (ids.map (fun a => (List.range dims).map (HvC.ar S a))) ++ " "
+      ++ showList2 showRat (ids.map (fun a => (List.range dims).map (HvC.vl S a))) ++ " "
+      ++ showList (fun b => match b with | none => "-inf" | some x => showRat x) S.bound ++ " "
+      ++ showList showRat (ids.map (HvC.dr S))
+
 def absRat (q : Rat) : Rat := if q < 0 then -q else q
 
 def minRat : List Rat → Rat
@@ -84,6 +108,21 @@ def handle : List String → String
         (match res with
          | some (v, _) => if v = hvSlice r p then "ok" else "differs-from-hvSlice:" ++ showRat (hvSlice r p)
          | none => "ok") ++ " " ++ showSweep p.length r.length res
+    | none => "bad-op"
+  | ["chv", rs, ps] =>
+    match (do let r ← parseList parseRat rs; let p ← parsePts r.length ps; pure (r, p)) with
+    | some (r, p) =>
+      if r.isEmpty || p.isEmpty then "bad-op"
+      else
+        match HvC.fpliHv p r with
+        | some v => (if v = hvSlice r p then "ok" else "differs-from-hvSlice:" ++ showRat (hvSlice r p)) ++ " " ++ showRat v
+        | none => "fuel-exhausted"
+    | none => "bad-op"
+  | ["chvst", rs, ps] =>
+    match (do let r ← parseList parseRat rs; let p ← parsePts r.length ps; pure (r, p)) with
+    | some (r, p) =>
+      if r.isEmpty || p.isEmpty then "bad-op"
+      else showC p.length r.length (HvC.fpliHvSt p r)
     | none => "bad-op"
   | ["hv", rs, ps] =>
     match (do let r ← parseList parseRat rs; let p ← parsePts r.length ps; pure (r, p)) with
